@@ -34,3 +34,9 @@ claim(
     "Seeded random exploration of (call trees incl. recursion, several outermost calls, raising activations, never-bound captures) x (focus-free selectors with siblings; focused selectors forced to total); records, their order, and the moment of delivery (right at the outermost call's exit) are compared with a reference from the statement. Held-on-observed.",
     "Per-embedding multiplicity for nested matches; forced-total records compared as a multiset per outermost call.",
 )
+claim(
+    "C09",
+    "history monitor: driver histories over instrumented generators with the handler collection compared after every step against a no-leak model, and per-call event expectations for the driver's own calls",
+    "Seeded random histories (<=10/16 ops: overlays entered/left, generators created, advanced, sent to, closed, dropped+gc, zipped, exhausted, in LIFO and non-LIFO completion orders, driver at top level or inside an instrumented outer()) are run against the real code; after every step HandlerCollection.current must equal the model's handler list by identity, and each driver call of g must fire exactly the selectors that do not require the generator as ancestor. Held-on-observed.",
+    "Events of the generators' own inner calls are not asserted; overlays are entered/left LIFO by the driver; generators use plain `yield` (no user-level `yield from`).",
+)
